@@ -283,6 +283,26 @@ ADDENDA8 = {
     "C20": ("; all-operand-slots rule for compiler passes; agreement of stored and looked-up set keys; fresh rule lookup at every compile", " Also decides that every pass walks all source/destination slots, that an opcode set is found under the prefix it was registered with, that the text parser consults every set, and that no lookup result is remembered across compiles."),
 }
 
+# Additions after the tenth seeding round
+ADDENDA9 = {
+    "C02": ("; element-offset scaling of staged scalars under x2/x4", " Also decides that the emulator scales the element offset of loadoffX with the x2/x4 prefix like every other per-chunk quantity."),
+    "C03": ("; who-may-read rule for attach-time entry points (shared with C06/C16/C17); width rule for row offsets", " Also decides that a run enters the program's current code, and that row offsets (stride times row index) are computed in 64 bits in the emulator and in generated C."),
+    "C04": ("; width rule for constants loaded into 8-byte operands; size-keyed sharing of literal slots (shared with C13/C15)", " Also decides that the C back end extends a 4-byte constant the way emulation does, and that a literal's slot is shared only between uses of the same size."),
+    "C05": ("; counter-on-refusal rule for table constructors (shared with C14)", " Also decides that a constructor that refuses a slot leaves its counters as they were."),
+    "C06": ("; completeness of liveness scans over the variable table; rule-of-own-set (shared with C20)", " Also decides that every scan of vars[] that decides which registers are free covers all compiler variables, and that an opcode is given only a rule registered for its own opcode set."),
+    "C07": ("; completeness of liveness scans over the variable table (shared with C06)", " Also decides that scratch-register selection sees every live variable."),
+    "C08": ("; freshness rule for per-compile state", " Also decides that every buffer the compiler writes during a compile belongs to that compile (no static or cached storage behind OrcCompiler pointers)."),
+    "C09": ("; field-completeness rule for region constructors", " Also decides that every success exit of a region constructor has stored each field the lookup and free paths read."),
+    "C12": ("; re-entrancy rule for the listing writer", " Also decides that the listing writer formats into storage of its own call."),
+    "C13": ("; size-keyed sharing of literal slots (shared with C04/C15)", " Also decides that two literals share a slot only if they have the same size, the premise of a slot-for-slot round trip."),
+    "C14": ("; range rule for token-to-int conversions; digit-after-prefix rule; counter-on-refusal (shared with C05)", " Also decides that a number outside the range of int is reported, that a bare 0x is not a number, and that refused constructions leave no trace in the counters."),
+    "C15": ("; name-retention rule for shared constant slots; declared-name-first rule for operand resolution", " Also decides that a named constant can always be found under its name, and that an operand is looked up among the declared names before it is tried as a literal."),
+    "C17": ("; no-stale-restore rule for the MXCSR epilogue (shared with C10)", " Also decides that no path restores a control word it did not save in the same call."),
+    "C18": ("; mirror rule for 64-bit constant codecs (shared with C13)", " Also decides that 8-byte constants are read back from bytecode with both halves zero-extended before they are combined."),
+    "C19": ("; must-pass-through of the --target request in orcc's generated initialisation code", " Also decides that every compile call orcc generates under --target names that target."),
+    "C20": ("; rule-of-own-set in the rule lookup", " Also decides that the rule lookup compares the opcode set as well as the index inside it."),
+}
+
 
 def main():
     props = [json.loads(l) for l in open(os.path.join(VERIF, "properties.jsonl"))]
@@ -315,6 +335,9 @@ def main():
                 tech, text = tech + a[0], text + a[1]
             if pid in ADDENDA8:
                 a = ADDENDA8[pid]
+                tech, text = tech + a[0], text + a[1]
+            if pid in ADDENDA9:
+                a = ADDENDA9[pid]
                 tech, text = tech + a[0], text + a[1]
             checks.append({
                 "property_id": pid,
